@@ -1,5 +1,5 @@
 (* C11/Witness.v — non-vacuity examples and concrete evaluations. *)
-From Verif Require Import Common.Base Generated.StatusTable C11.Model C11.Diagram C11.Proofs C11.ProofsConc C11.ProofsRepair C11.ProofsRound4.
+From Verif Require Import Common.Base Generated.StatusTable C11.Model C11.Diagram C11.Proofs C11.ProofsConc C11.ProofsRepair C11.ProofsRound4 C11.ProofsAudit C11.Harness C11.ProofsLink.
 
 (* a non-trivial report sequence: illegal reports interleaved with legal ones *)
 Example ex_run :
@@ -73,10 +73,48 @@ Proof. repeat split; try (vm_compute; auto; fail). repeat constructor; simpl; in
    connector used twice names all four ends *)
 Example ex_instances :
   inst_pairs (inst_run [IRecv 1 0; IExp 1 0; IRecv 2 0; IExp 2 1; IConn 1 12 0; IConn 2 11 0])
-  = [(1000, 1); (1000, 2); (3000, 1); (3100, 2); (4001, 1); (4001, 12); (4001, 2); (4001, 11)].
+  = [(1000%Z, 1); (1000%Z, 2); (3000%Z, 1); (3100%Z, 2); (4001%Z, 1); (4001%Z, 12); (4001%Z, 2); (4001%Z, 11)].
 Proof. vm_compute. reflexivity. Qed.
 
 (* shared_fanout_uniform: hypotheses satisfiable on a non-trivial state *)
 Example ex_fanout :
   NoDup (sources {| sources := [0; 1; 2]; ring := [Starting] |}) /\ In 1 [0; 1; 2].
 Proof. split; [repeat constructor; simpl; intuition discriminate|simpl; auto]. Qed.
+
+(* round 5: hypotheses of the audit theorems are satisfiable on non-trivial histories *)
+Example ex_illegal_invisible :
+  diagram (rget 0 (fst (rep_run [] [(0, RStatus Starting); (1, RStatus Starting); (0, RStatus PermanentError)]))) OK = false /\
+  rget 0 (fst (rep_run [] [(0, RStatus Starting); (0, RStatus RecoverableError)])) <> Starting.
+Proof. split; vm_compute; congruence. Qed.
+
+Example ex_fanout_reachable :
+  let os := [ScAttach 0; ScReport Starting; ScAttach 2; ScReport OK; ScAttach 1] in
+  NoDup (attached os) /\ In 2 (attached os) /\ sources (sc_final shared0 os) = [0; 2; 1].
+Proof. vm_compute. repeat split; auto. repeat constructor; simpl; intuition discriminate. Qed.
+
+(* the clause checkers are not constantly 0: each code is produced by some observation *)
+Example ex_clause_codes :
+  paths_code [] [(0, Starting); (0, OK)] = 0 /\ paths_code [] [(0, OK)] = 1 /\
+  paths_code [] [(0, Starting); (0, Starting)] = 2 /\
+  paths_code [] [(0, Starting); (0, PermanentError); (0, OK)] = 3 /\
+  paths_code [] [(0, Starting); (0, FatalError); (0, Stopping)] = 4 /\
+  paths_code [] [(0, Starting); (0, OK); (0, Starting)] = 5 /\
+  paths_code [] [(0, Starting); (0, OK); (0, Stopped)] = 6 /\
+  shared_code [(0, Starting); (1, OK)] = 8 /\ shared_code [(0, Starting); (1, Starting)] = 0 /\
+  inst_code [IRecv 1 0; IRecv 2 0] [(1, 1000%Z)] = 9.
+Proof. vm_compute. repeat split. Qed.
+
+(* the link theorems are about non-trivial observations: a model run with 6 events over two instances and two watchers *)
+Example ex_link_nonvacuous :
+  let ls := [(0, RStatus Starting); (1, RStatus Starting); (0, RAutoOK); (1, RStatus RecoverableError); (1, RAutoOK); (0, RStatus Stopping)] in
+  length (snd (rep_run [] ls)) = 5 /\ NoDup [0; 3] /\ Forall (fun e => fst e < 100) (snd (rep_run [] ls)) /\
+  length (delivZ (watcher_deliveries [0; 3] (snd (rep_run [] ls)))) = 10 /\
+  prop_code (5, ([], delivZ (watcher_deliveries [0; 3] (snd (rep_run [] ls))))) = 0 /\
+  prop_code (5, ([], [(300, StatusOK)])) = 1.
+Proof. vm_compute. repeat split; try reflexivity; repeat constructor; simpl; try lia; intuition discriminate. Qed.
+
+(* checker_accepts_shared_model_general: four instances attaching at different moments within the ring *)
+Example ex_link_general :
+  let os := [ScReport Starting; ScAttach 1; ScReport OK; ScAttach 2; ScReport RecoverableError; ScReport OK; ScAttach 3; ScReport Stopping] in
+  NoDup (0 :: attached os) /\ attach_ok 0 os /\ length (sc_run shared0 (ScAttach 0 :: os)) = 20.
+Proof. vm_compute. repeat split; try lia. repeat constructor; simpl; intuition discriminate. Qed.
